@@ -65,6 +65,15 @@ def texts_for(lang):
         "99999 %s 32 %s 2015 40" % (m, m2), "%s %s %s 2015" % (w, w2, w), "",
         " ", "....", "-", "—— 4 %s ——" % m, "4 %s 2015年3月4日" % m,
     ]
+    # every punctuation mark the search tokenizer strips, directly attached to a dictionary word
+    for q1, q2 in (('"', '"'), ("'", "'"), ("(", ")"), ("[", "]"), ("{", "}"), ("\u201c", "\u201d"),
+                   ("", ","), ("", "."), ("", "\u060c"), ('"', '",')):
+        out.append("xx %s%s%s yy 4 %s 2015" % (q1, rel[0], q2, m))
+        out.append("%s%s%s 10 Uhr" % (q1, w, q2))
+        out.append("%s4 %s%s" % (q1, m, q2))
+    # capitalised / upper-cased words (the original substring must still be found in the text)
+    for r in rel[:3]:
+        out += ["xx %s yy" % r.title(), "xx %s yy" % r.upper(), "%s %s" % (r.capitalize(), w.upper())]
     for r in rel:
         out += [r, "xx %s yy" % r, "%s 25 %s 25 %s" % (r, m, m), "%s %s %s 2015" % (r, w, w2),
                 "%s, 4 %s 2015 99999" % (r, m)]
